@@ -3,7 +3,7 @@
 n=$1
 cd /verif
 git -C /work/$n/verif status --short | grep -v '^??' | head -5
-git fetch -q /work/$n/verif master || exit 1
+git fetch -q /work/$n/verif main || exit 1
 git merge --no-edit -q FETCH_HEAD 2>&1 | tail -5
 # conflicts: generated files and evidence keep ours / get removed
 for f in $(git diff --name-only --diff-filter=U); do
